@@ -5,7 +5,7 @@
 //! validated by TLC against Builder.tla (BuilderTrace.tla).  Public API only.
 //!
 //! Scenario: {"name":..,"workers":W,"calls":[{"kind":"bind","addrs":[true,false,..]}|{"kind":"listen"}|{"kind":"uds"}],
-//!            "events":[{"k":"conn","s":p}|{"k":"fail","c":c}|{"k":"die","s":p}]}
+//!            "events":[{"k":"conn","s":p}|{"k":"fail","c":c}|{"k":"die","s":p}|{"k":"pend","c":c}|{"k":"unpend","c":c}]}
 //! Trace records: {"ev":"reset"} {"ev":"call","kind","addrs","ok"} {"ev":"run","workers","ok"}
 //!                {"ev":"conn","s","by"} {"ev":"fail","c"} {"ev":"die"} {"ev":"made","made":[..]}
 
@@ -38,6 +38,10 @@ struct Shared {
     poisoned: AtomicUsize,
     /// service instances destroyed (a dying worker takes its services with it)
     dropped: AtomicUsize,
+    /// per call: its services answer Pending to the readiness check while set
+    pend: Vec<AtomicBool>,
+    /// wakers of the readiness checks that were answered Pending
+    wakers: std::sync::Mutex<Vec<std::task::Waker>>,
 }
 
 struct TagSvc {
@@ -56,7 +60,14 @@ impl<S: AsyncRead + AsyncWrite + Unpin + 'static> Service<S> for TagSvc {
     type Error = ();
     type Future = Pin<Box<dyn Future<Output = Result<(), ()>>>>;
 
-    fn poll_ready(&self, _: &mut Context<'_>) -> Poll<Result<(), ()>> {
+    fn poll_ready(&self, cx: &mut Context<'_>) -> Poll<Result<(), ()>> {
+        if self.sh.pend[self.c].load(Ordering::SeqCst) {
+            self.sh.wakers.lock().unwrap().push(cx.waker().clone());
+            // re-check: the flag may have been cleared before the waker was stored
+            if self.sh.pend[self.c].load(Ordering::SeqCst) {
+                return Poll::Pending;
+            }
+        }
         if self.sh.fail[self.c].swap(false, Ordering::SeqCst) {
             Poll::Ready(Err(()))
         } else {
@@ -98,34 +109,61 @@ fn wait_until(timeout: Duration, f: impl Fn() -> bool) -> bool {
     f()
 }
 
-/// a client on `a`: sends one byte, returns the tag byte the service answers with (0 = no answer within `ms`)
-fn client(a: &Addr, ms: u64) -> u8 {
-    let to = Some(Duration::from_millis(ms));
-    let mut b = [0u8; 1];
-    match a {
-        Addr::Tcp(sa) => {
-            let Ok(mut s) = StdTcpStream::connect_timeout(sa, Duration::from_millis(ms)) else { return 0 };
-            let _ = s.set_read_timeout(to);
-            if s.write_all(&[1]).is_err() {
-                return 0;
+enum Sock {
+    Tcp(StdTcpStream),
+    Uds(StdUnixStream),
+}
+
+impl Sock {
+    fn read_tag(&mut self, ms: u64) -> Option<u8> {
+        let to = Some(Duration::from_millis(ms));
+        let mut b = [0u8; 1];
+        let r = match self {
+            Sock::Tcp(s) => {
+                let _ = s.set_read_timeout(to);
+                s.read(&mut b)
             }
-            match s.read(&mut b) {
-                Ok(1) => b[0],
-                _ => 0,
+            Sock::Uds(s) => {
+                let _ = s.set_read_timeout(to);
+                s.read(&mut b)
             }
-        }
-        Addr::Uds(p) => {
-            let Ok(mut s) = StdUnixStream::connect(p) else { return 0 };
-            let _ = s.set_read_timeout(to);
-            if s.write_all(&[1]).is_err() {
-                return 0;
-            }
-            match s.read(&mut b) {
-                Ok(1) => b[0],
-                _ => 0,
-            }
+        };
+        match r {
+            Ok(1) => Some(b[0]),
+            Ok(_) => Some(0), // closed without an answer
+            Err(_) => None,   // nothing yet
         }
     }
+}
+
+/// a client on `a`: sends one byte; returns the tag byte the service answers with within `ms` (0 = none) and, when
+/// there was neither an answer nor a close, the open socket (the connection may still be waiting at a worker)
+fn client_keep(a: &Addr, ms: u64) -> (u8, Option<Sock>) {
+    let mut sock = match a {
+        Addr::Tcp(sa) => match StdTcpStream::connect_timeout(sa, Duration::from_millis(ms.max(500))) {
+            Ok(s) => Sock::Tcp(s),
+            Err(_) => return (0, None),
+        },
+        Addr::Uds(p) => match StdUnixStream::connect(p) {
+            Ok(s) => Sock::Uds(s),
+            Err(_) => return (0, None),
+        },
+    };
+    let w = match &mut sock {
+        Sock::Tcp(s) => s.write_all(&[1]),
+        Sock::Uds(s) => s.write_all(&[1]),
+    };
+    if w.is_err() {
+        return (0, None);
+    }
+    match sock.read_tag(ms) {
+        Some(t) => (t, None),
+        None => (0, Some(sock)),
+    }
+}
+
+fn client(a: &Addr, ms: u64) -> u8 {
+    client_keep(a, ms).0
 }
 
 /// a loopback port that stays reserved (bound with SO_REUSEADDR, NOT listening) until the guard is dropped: the
@@ -148,6 +186,8 @@ pub fn run_scenario(sc: &Value, dir: &str, idx: usize) -> Vec<Value> {
         poison: AtomicBool::new(false),
         poisoned: AtomicUsize::new(0),
         dropped: AtomicUsize::new(0),
+        pend: (0..MAXC).map(|_| AtomicBool::new(false)).collect(),
+        wakers: std::sync::Mutex::new(vec![]),
     });
     let mut out = vec![json!({"ev": "reset", "scenario": sc})];
     let ncalls = calls.len();
@@ -275,12 +315,20 @@ pub fn run_scenario(sc: &Value, dir: &str, idx: usize) -> Vec<Value> {
     out.push(json!({"ev": "made", "made": made_now(&sh)}));
 
     let mut pending_die: Option<usize> = None;
+    let mut waiting: Vec<Sock> = vec![];
     if started {
         for e in sc["events"].as_array().cloned().unwrap_or_default() {
             match e["k"].as_str().unwrap_or("") {
                 "conn" => {
                     let p = e["s"].as_u64().unwrap_or(1) as usize;
-                    let by = client(&addrs[p - 1], 2500);
+                    let pending_now = (1..=ncalls).any(|c| sh.pend[c].load(Ordering::SeqCst));
+                    // while a service is pending the client is expected to wait: a short look, the socket is kept
+                    let (by, kept) = client_keep(&addrs[p - 1], if pending_now { 300 } else { 2500 });
+                    if pending_now {
+                        if let Some(k) = kept {
+                            waiting.push(k);
+                        }
+                    }
                     if let Some(target) = pending_die {
                         // the dispatch that finds the dead worker makes the server start a replacement (asynchronously)
                         if wait_until(Duration::from_millis(500), || made_now(&sh).iter().sum::<usize>() >= target) {
@@ -288,6 +336,26 @@ pub fn run_scenario(sc: &Value, dir: &str, idx: usize) -> Vec<Value> {
                         }
                     }
                     out.push(json!({"ev": "conn", "s": p, "by": by}));
+                    out.push(json!({"ev": "made", "made": made_now(&sh)}));
+                }
+                "pend" => {
+                    let c = e["c"].as_u64().unwrap_or(1) as usize;
+                    sh.pend[c].store(true, Ordering::SeqCst);
+                    out.push(json!({"ev": "pend", "c": c}));
+                }
+                "unpend" => {
+                    let c = e["c"].as_u64().unwrap_or(1) as usize;
+                    sh.pend[c].store(false, Ordering::SeqCst);
+                    for w in sh.wakers.lock().unwrap().drain(..) {
+                        w.wake();
+                    }
+                    let mut late = vec![];
+                    if !(1..=ncalls).any(|c| sh.pend[c].load(Ordering::SeqCst)) {
+                        for mut k in waiting.drain(..) {
+                            late.push(k.read_tag(2500).unwrap_or(0));
+                        }
+                    }
+                    out.push(json!({"ev": "unpend", "c": c, "late": late}));
                     out.push(json!({"ev": "made", "made": made_now(&sh)}));
                 }
                 "fail" => {
